@@ -107,13 +107,43 @@ theorem isDateTime_names (lines : List HLine)
   simp only [isDateTime, beq_iff_eq, Value.text.injEq, Bool.or_eq_true, Bool.and_eq_true, decide_eq_true_eq] at this ⊢
   exact this
 
-theorem identClash_text (lines : List HLine) :
-    identClash (lines.map (fun h => ((.text h.mnem : Value), (.text h.unit : Value)))) = false := by
-  unfold identClash
-  rw [List.any_eq_false]
-  intro p hp
-  have hm := (List.mem_zipIdx hp).2.2
-  simp only [List.getElem_map] at hm
-  rw [hm]; simp [asNum]
+theorem text_beq (a b : Str) : ((Value.text a) == (Value.text b)) = (a == b) := by
+  by_cases h : a = b
+  · subst h; simp
+  · have h1 : (a == b) = false := by rw [beq_eq_false_iff_ne]; exact h
+    have h2 : (Value.text a == Value.text b) = false := by
+      rw [beq_eq_false_iff_ne]; intro hh; injection hh with hh; exact h hh
+    rw [h1, h2]
+
+/-- the null value handed to the array section is the one the content declares -/
+theorem nullOf_eq (c : LasContent) (w : Option Value) (hs : ∀ s ∈ c.sects, wfSect s = true) :
+    nullOf ⟨(c.sects.map expectSect).reverse ++ [vSection c], w, none, .top⟩ = declaredNull c := by
+  have h1 : (fun s => s.typ == 'W') ∘ expectSect = fun (s : CSect) => s.typ == 'W' := by
+    funext s; simp [expectSect_eq]
+  have hvw : (('V' : Char) == 'W') = false := by decide
+  simp only [nullOf, declaredNull, List.reverse_append, List.reverse_reverse, List.reverse_cons, List.reverse_nil,
+    List.nil_append, List.cons_append, List.find?_cons, vSection, hvw, List.find?_map, h1]
+  cases hf : c.sects.find? (fun s => s.typ == 'W') with
+  | none => rfl
+  | some s =>
+    have hmem := List.mem_of_find?_eq_some hf
+    have htyp := List.find?_some hf
+    have hw := hs s hmem
+    cases s with
+    | txt t lines =>
+      simp only [CSect.typ, beq_iff_eq] at htyp
+      subst htyp
+      simp [wfSect] at hw
+    | hdr t lines =>
+      have h2 : (fun m => memberMnem m == some (.text "NULL".toList)) ∘ (fun h => Member.line (expectLine h)) =
+          fun (h : HLine) => h.mnem == "NULL".toList := by
+        funext h; simp only [Function.comp, memberMnem, expectLine]
+        simp [text_beq]
+      simp only [Option.map_some, expectSect, List.find?_map, h2]
+      cases hl : lines.find? (fun h => h.mnem == "NULL".toList) with
+      | none => rfl
+      | some h =>
+        simp only [Option.map_some, expectLine]
+        cases h.value <;> rfl
 
 end TD.C09
